@@ -30,7 +30,7 @@ static unsigned PMA_BITS(unsigned pos, unsigned n)
 	for (i = 0; i < n; ++i) {
 		unsigned q = pos + i, bit = 0;
 		if ((q >> 3) < g_nbytes) bit = (g_bits[q >> 3] >> (7 - (q & 7))) & 1u;
-		else g_overrun = 1;              /* -pm1-: continued as zero bits */
+		/* past the end: zero bits (-pm1- semantics; the matchers also look ahead) */
 		v = (v << 1) | bit;
 	}
 	return v;
@@ -258,12 +258,11 @@ static int ref_pm2(size_t want)
 	pm2_read_tables(PM2_REF_START, &cur, &code, &off, &need);
 	while (g_outlen < want) {
 		int sym;
-		g_overrun = 0;
 		sym = canon_read(&code, &cur);
 		if (sym < 0) return 0;
 		if (sym < 8) {
 			unsigned rank = pm2_ref_rank((unsigned) sym, &cur);
-			if (g_overrun) break;
+			if (cur > 8 * g_nbytes) break;
 			++cov_pm2_rank[sym];
 			out_pm2(mtf[rank], &cur, &code, &off, &need);
 		} else {
@@ -272,7 +271,7 @@ static int ref_pm2(size_t want)
 			if (len == 0) return 0;
 			if (pm2_ref_uses_offset_tree(c)) { int tt = canon_read(&off, &cur); if (tt < 0) return 0; t = (unsigned) tt; ++cov_pm2_offcls[t]; }
 			o = pm2_ref_offset(c, t, &cur);
-			if (g_overrun) break;
+			if (cur > 8 * g_nbytes) break;
 			++cov_pm2_copy[c];
 			for (i = 0; i < len; ++i) out_pm2(hist((size_t) o + 1, ' '), &cur, &code, &off, &need);
 		}
@@ -319,7 +318,7 @@ static int ref_pm1(size_t want)
 			for (i = 0; i < len; ++i) emit(hist((size_t) dist + 1, 0));
 		}
 	}
-	if (g_overrun) ++cov_pm1_zero_fill;
+	if (cur > 8 * g_nbytes) ++cov_pm1_zero_fill;
 	return 1;
 }
 
